@@ -607,6 +607,37 @@ func checkLegacyMigrated(res *hx.Result, src, migrated []byte, ld *ldef, fail fu
 	return uuid, g, true
 }
 
+// checkCaseVariant: a definition that migrates and loads must still do so when one top-level member is written with
+// another capitalisation -- the reader (encoding/json) takes both spellings for the same member, so both are the same
+// valid definition
+func checkCaseVariant(res *hx.Result, member string, def []byte) {
+	res.OracleChecks++
+	migAndRead := func(b []byte) (ok bool, pan string) {
+		pan = guard(func() {
+			m, err := migrations.MigrateToLatest(b, migrations.DefaultConfig)
+			if err != nil {
+				return
+			}
+			_, err = definition.ReadFlow(m, nil)
+			ok = err == nil
+		})
+		return
+	}
+	canonical, pan := migAndRead(def)
+	if pan != "" || !canonical {
+		return // not a usable base (reported elsewhere if it should have been)
+	}
+	variant := strings.ToUpper(member[:1]) + member[1:]
+	v := []byte(strings.Replace(string(def), `"`+member+`":`, `"`+variant+`":`, 1))
+	ok, pan := migAndRead(v)
+	if pan != "" {
+		res.Fail("panic:"+pan, failInput("casevariant:"+member, v, nil), "panic on a case-variant member name")
+	} else if !ok {
+		res.Fail("case-variant-member-not-migrated:"+member, failInput("casevariant:"+member, v, nil),
+			"the definition loads after migration with the member spelled "+member+", not with "+variant+" (which the reader accepts as the same member)")
+	}
+}
+
 // ---- rejection clause ---------------------------------------------------------------------------------------------
 
 // panicClass: class of "panic instead of an error", computed from the panic site and the input.  The two sites that
